@@ -605,3 +605,62 @@ def check_distinct_pairs(prog, res, fn, rule='V9'):
               'kernel over both dimensions, raises IndexError / ValueError '
               'or constrains another pair of axes' % (pair[0], pair[1], src))
   return n
+
+
+# ---------------------------------------------------------------------------
+# V10 - strictness of the bound-order guards
+BOUND_ORDER = {
+    # validator: (min name, max name, equality rejected?, why)
+    'lattice_lib.verify_hyperparameters':
+        ('output_min', 'output_max', True,
+         'the two-sided bound map divides by (output_max - output_min)'),
+    'kronecker_factored_lattice_lib.verify_hyperparameters':
+        ('output_min', 'output_max', True,
+         'the scale is clipped to (output_max - output_min) / 2 > 0'),
+    'rtl_lib.verify_hyperparameters':
+        ('output_min', 'output_max', True, 'forwards to the lattice layers'),
+    'categorical_calibration_lib.verify_hyperparameters':
+        ('output_min', 'output_max', False, 'a constant calibrator is valid'),
+    'pwl_calibration_lib.verify_hyperparameters':
+        ('output_min', 'output_max', False, 'a constant calibrator is valid'),
+    'linear_lib.verify_hyperparameters':
+        ('lower', 'upper', False,
+         'a zero-width input range is accepted outside range dominances'),
+}
+
+
+def check_bound_order(prog, res, rule='V10'):
+  """A validator that compares a lower with an upper bound rejects min > max
+  everywhere; whether it also rejects min == max is part of the contract of
+  the layer (table above, confirmed by reading): where the projection divides
+  by the width, equal bounds must be rejected up front - accepted, the first
+  projection returns NaN."""
+  n = 0
+  for q, (lo, hi, reject_eq, why) in sorted(BOUND_ORDER.items()):
+    fn = prog.function(q)
+    res.analysed(fn)
+    found = []
+    for c in ast.walk(fn.node):
+      if isinstance(c, ast.Compare) and len(c.ops) == 1 and isinstance(
+          c.ops[0], (ast.Lt, ast.LtE, ast.Gt, ast.GtE)):
+        l, r = dotted(c.left), dotted(c.comparators[0])
+        op = type(c.ops[0])
+        if (l, r) == (hi, lo):
+          op = {ast.Lt: ast.Gt, ast.LtE: ast.GtE, ast.Gt: ast.Lt,
+                ast.GtE: ast.LtE}[op]
+          l, r = r, l
+        if (l, r) == (lo, hi) and op in (ast.Gt, ast.GtE):
+          found.append((c, op is ast.GtE))
+    if not found:
+      raise AnalysisError('%s: the comparison of %s with %s was not found' % (
+          q, lo, hi))
+    for i, (c, rejects) in enumerate(found):
+      n += 1
+      res.check(rejects == reject_eq, rule, '%s|%s-vs-%s%s' % (
+          q, lo, hi, '#%d' % (i + 1) if i else ''), fn.loc(c),
+                '%s == %s is %s (%s)' % (lo, hi, 'rejected' if reject_eq else
+                                         'accepted', why),
+                '`%s` %s %s == %s, but %s' % (
+                    norm_text(c), 'rejects' if rejects else 'accepts', lo, hi,
+                    why))
+  return n
